@@ -43,4 +43,7 @@ EvalLaw ==
   /\ EvalInt(MkBin("exdiv", Ri, Rj), V)
        = (IF b = 0 THEN Undef ELSE IF FMod(a, b) # 0 THEN Undef ELSE Val(TDiv(a, b)))
   /\ EvalInt(MkLit("real", "1.0", ""), V) = Unsup
+  /\ ~ IsIntTree(MkLit("real", "1.0", ""), {"i", "j"})
+  /\ ~ IsIntTree(MkBin("<", Ri, Rj), {"i", "j"}) /\ ~ IsIntTree(Ri, {"j"})
+  /\ IsIntTree(Call2("mod"), {"i", "j"}) /\ IsIntTree(MkBin("exdiv", Ri, Rj), {"i", "j"})
 ===============================================================================
